@@ -161,8 +161,36 @@ def validate(traces):
     return r, list(first.values())
 
 
+def negative_control(ctx, traces, bad=()):
+    """liveness of the binding: ONE logged field of one recorded trace is corrupted (a value the trace spec binds: the
+    parameter read back after an accepted setter); a separate small TLC run must report exactly that event"""
+    import copy
+    badt = {b[0] for b in bad}
+    for ti, t in enumerate(traces, 1):
+        if ti in badt:
+            continue  # only a trace that conforms as recorded can show that the corruption is what TLC reports
+        for i, e in enumerate(t["ev"]):
+            f = {"SetSigma": "sigma", "SetHbs": "hbs", "SetHms": "hms", "SetFc": "fc", "SetN": "n"}.get(e["op"])
+            if f and e["out"] == "ok" and isinstance(e["post"].get(f), list) and e["post"][f] == e["arg"]:
+                t2 = copy.deepcopy(t)
+                t2["ev"] = t2["ev"][:i + 1]
+                p, q = t2["ev"][i]["post"][f]
+                t2["ev"][i]["post"][f] = [p + q, q]  # the logged parameter is off by one
+                r, bad = validate([t2])
+                if not any(b[0] == 1 and b[1] == i + 1 and b[2] == "parameter " + f for b in bad):
+                    raise tlc.TlcError(f"trace validation did not report a corrupted logged parameter ({f} after {e['op']}, "
+                                       f"event {i + 1}): binding not live; TLC reported {bad}")
+                ctx.notes["trace_negative_control"] = (f"logged {f} after an accepted {e['op']} changed from {p}/{q} to {p + q}/{q} in event "
+                                                       f"{i + 1} of one recorded {t['model']} trace: rejected (clause 'parameter {f}')")
+                return
+    if not badt:
+        raise tlc.TlcError("no recorded trace offers an accepted numeric setter for the negative control")
+    ctx.notes["trace_negative_control"] = "skipped: no conforming recorded trace with an accepted numeric setter in this run"
+
+
 def record_and_check(ctx, traces):
     r, bad = validate(traces)
+    negative_control(ctx, traces, bad)
     return traces, r, bad
 
 
